@@ -4,9 +4,12 @@
  *        diff --replay <ops-file> <model-in> <c-out> <oracle-file>                  (execute an op file)
  *
  * ops-file : C-level commands (replayable, shrinkable): synth/dup/name/iadd/iset/irepl/irem/mem/misc/
- *            restrict/allow/pair/hand.
+ *            restrict/allow/pair/hand/xdiff (xdiff <ref> <mseed> <entry>*: a hand-built list through the XML exporter,
+ *            importer and the mutated-document stream; `pair` sends every built list the same way).
  * model-in : the lines for `hwmodel diff` (topology descriptions observed from the real structures,
- *            build/apply requests carrying the real diff entries); c-out: the real answers, line-aligned.
+ *            build/apply requests carrying the real diff entries; `xexp <backend> <ref> <entry>*` = export, answered with the
+ *            attribute lists scanned from the exported text [+ the exact text for nolibxml]; `xload <backend> <tokens>` = load
+ *            of a token-level document); c-out: the real answers, line-aligned.
  * oracle   : property checks done on the C side alone: "O <opno> <name> <pass|fail> <class>".
  *            class = "-" or the known-finding class F13c (duplicate info names) when the input is outside the hypotheses.
  */
@@ -48,10 +51,16 @@ static void sb_add(sb_t *b, const char *fmt, ...) {
   memcpy(b->p + b->len, src, n + 1); b->len += n;
   free(big);
 }
+static void sb_hex(sb_t *b, const char *s, size_t n) {  /* n bytes as 2n hex digits, without a vsnprintf per byte */
+  static const char H[] = "0123456789abcdef";
+  if (b->len + 2 * n + 1 > b->cap) { b->cap = (b->len + 2 * n + 1) * 2 + 64; b->p = realloc(b->p, b->cap); }
+  for (size_t i = 0; i < n; i++) { b->p[b->len++] = H[((unsigned char)s[i]) >> 4]; b->p[b->len++] = H[((unsigned char)s[i]) & 15]; }
+  b->p[b->len] = 0;
+}
 static void sb_enc(sb_t *b, const char *s) {          /* hex-encode, "-" = NULL */
   if (!s) { sb_add(b, "-"); return; }
   sb_add(b, "s");
-  for (; *s; s++) sb_add(b, "%02x", (unsigned char)*s);
+  sb_hex(b, s, strlen(s));
 }
 static char *dec(const char *t) {                      /* inverse of sb_enc; NULL for "-" */
   if (!strcmp(t, "-") || t[0] != 's') return NULL;
@@ -262,6 +271,208 @@ static void oracle(const char *name, int pass, const char *cls) {
   if (!pass && strcmp(cls, "-")) st_orc_fail_known++;
 }
 
+
+/* ---------------------------------------------------------------- diff XML at the token level (tie of Hw.Io.XmlDiff)
+ * Every diff list that reaches xml_tie() is exported by the real code; a small scanner reads the attribute lists of the
+ * elements back from the text (entities decoded) and prints them (`xexp` line: the model must predict them, and the exact
+ * bytes when the nolibxml exporter wrote them); the text is loaded by the real importer (`xload` line: return value, refname
+ * and entries, predicted by the importer model from the scanned tokens); then MUTATED token-level documents (missing
+ * mandatory attribute, other type numbers, repeated attributes, bad numbers, unknown attribute / element names, reordered
+ * attributes and elements, empty values) are rendered by the harness, loaded by the real importer and predicted again. */
+#include <ctype.h>
+static int g_be_exp = 1, g_be_imp = 1;     /* 1 = libxml2 (hwloc's default when built with it), 0 = nolibxml */
+static unsigned long st_xexp, st_xexp_einval, st_xload, st_xload_mut, st_xload_rej, st_xload_dropped, st_xdiff;
+typedef struct { char *n, *v; } xattr_t;
+typedef struct { char *tag; xattr_t *a; unsigned na; } xel_t;
+typedef struct { xel_t *e; unsigned n; } xdoc_t;      /* e[0] = the root element */
+
+static uint64_t mrng_s;
+static uint64_t mrng_next(void) { mrng_s ^= mrng_s << 13; mrng_s ^= mrng_s >> 7; mrng_s ^= mrng_s << 17; return mrng_s * 0x2545F4914F6CDD1DULL; }
+static unsigned mrng_below(unsigned n) { return n ? (unsigned)((mrng_next() >> 11) % n) : 0; }
+
+static void xel_ins(xel_t *e, unsigned pos, const char *n, const char *v) {
+  e->a = realloc(e->a, (e->na + 1) * sizeof *e->a);
+  if (pos > e->na) pos = e->na;
+  memmove(e->a + pos + 1, e->a + pos, (e->na - pos) * sizeof *e->a);
+  e->a[pos].n = strdup(n); e->a[pos].v = strdup(v); e->na++;
+}
+static void xel_del(xel_t *e, unsigned pos) {
+  free(e->a[pos].n); free(e->a[pos].v);
+  memmove(e->a + pos, e->a + pos + 1, (e->na - pos - 1) * sizeof *e->a); e->na--;
+}
+static void xel_free(xel_t *e) { for (unsigned i = 0; i < e->na; i++) { free(e->a[i].n); free(e->a[i].v); } free(e->a); free(e->tag); }
+static void xdoc_free(xdoc_t *d) { for (unsigned i = 0; i < d->n; i++) xel_free(&d->e[i]); free(d->e); d->e = NULL; d->n = 0; }
+static xel_t xel_copy(const xel_t *s) {
+  xel_t e = { strdup(s->tag), NULL, 0 };
+  for (unsigned i = 0; i < s->na; i++) xel_ins(&e, e.na, s->a[i].n, s->a[i].v);
+  return e;
+}
+static void xdoc_ins(xdoc_t *d, unsigned pos, xel_t e) {
+  d->e = realloc(d->e, (d->n + 1) * sizeof *d->e);
+  if (pos > d->n) pos = d->n;
+  memmove(d->e + pos + 1, d->e + pos, (d->n - pos) * sizeof *d->e);
+  d->e[pos] = e; d->n++;
+}
+static xdoc_t xdoc_copy(const xdoc_t *s) { xdoc_t d = { NULL, 0 }; for (unsigned i = 0; i < s->n; i++) xdoc_ins(&d, d.n, xel_copy(&s->e[i])); return d; }
+
+/* the scanner: elements and their attributes, in text order; 0 on success */
+static int xscan(const char *txt, xdoc_t *doc) {
+  const char *p = txt;
+  doc->e = NULL; doc->n = 0;
+  while ((p = strchr(p, '<'))) {
+    p++;
+    if (*p == '?' || *p == '!' || *p == '/') { p = strchr(p, '>'); if (!p) return -1; continue; }
+    const char *s = p;
+    while (*p && !isspace((unsigned char)*p) && *p != '/' && *p != '>') p++;
+    xel_t e = { strndup(s, (size_t)(p - s)), NULL, 0 };
+    for (;;) {
+      while (isspace((unsigned char)*p)) p++;
+      if (*p == '/' || *p == '>' || !*p) break;
+      s = p; while (*p && *p != '=') p++;
+      if (*p != '=') { xel_free(&e); return -1; }
+      char *name = strndup(s, (size_t)(p - s)); p++;
+      char q = *p;
+      if (q != '"' && q != '\'') { free(name); xel_free(&e); return -1; }
+      p++;
+      char *val = malloc(strlen(p) + 1); size_t k = 0;
+      while (*p && *p != q) {
+        if (*p == '&') {
+          if (!strncmp(p, "&lt;", 4)) { val[k++] = '<'; p += 4; }
+          else if (!strncmp(p, "&gt;", 4)) { val[k++] = '>'; p += 4; }
+          else if (!strncmp(p, "&amp;", 5)) { val[k++] = '&'; p += 5; }
+          else if (!strncmp(p, "&quot;", 6)) { val[k++] = '"'; p += 6; }
+          else if (!strncmp(p, "&apos;", 6)) { val[k++] = '\''; p += 6; }
+          else if (p[1] == '#') {
+            char *end; long v = (p[2] == 'x' || p[2] == 'X') ? strtol(p + 3, &end, 16) : strtol(p + 2, &end, 10);
+            if (*end != ';' || v <= 0 || v > 127) { free(val); free(name); xel_free(&e); return -1; }
+            val[k++] = (char)v; p = end + 1;
+          } else { free(val); free(name); xel_free(&e); return -1; }
+        } else val[k++] = *p++;
+      }
+      val[k] = 0;
+      if (*p != q) { free(val); free(name); xel_free(&e); return -1; }
+      p++;
+      xel_ins(&e, e.na, name, val); free(name); free(val);
+    }
+    xdoc_ins(doc, doc->n, e);
+  }
+  return doc->n ? 0 : -1;
+}
+static void sb_xattrs(sb_t *b, const xel_t *e) {
+  sb_add(b, " %u", e->na);
+  for (unsigned i = 0; i < e->na; i++) { sb_add(b, " "); sb_enc(b, e->a[i].n); sb_add(b, " "); sb_enc(b, e->a[i].v); }
+}
+static void sb_xdoc(sb_t *b, const xdoc_t *d) {
+  sb_add(b, "R"); sb_xattrs(b, &d->e[0]); sb_add(b, " E %u", d->n - 1);
+  for (unsigned i = 1; i < d->n; i++) { sb_add(b, " "); sb_enc(b, d->e[i].tag); sb_xattrs(b, &d->e[i]); }
+}
+/* the harness's own writer for (mutated) token-level documents */
+static void sb_xml_escaped(sb_t *b, const char *v) {
+  for (; *v; v++) switch (*v) {
+    case '<': sb_add(b, "&lt;"); break; case '>': sb_add(b, "&gt;"); break; case '&': sb_add(b, "&amp;"); break;
+    case '"': sb_add(b, "&quot;"); break; case '\n': sb_add(b, "&#10;"); break; case '\r': sb_add(b, "&#13;"); break;
+    case '\t': sb_add(b, "&#9;"); break;
+    default: if (b->len + 2 > b->cap) { b->cap = (b->len + 2) * 2 + 64; b->p = realloc(b->p, b->cap); } b->p[b->len++] = *v; b->p[b->len] = 0; break;
+  }
+}
+static void xrender(sb_t *b, const xdoc_t *d) {
+  sb_add(b, "<?xml version=\"1.0\" encoding=\"UTF-8\"?>\n<!DOCTYPE topologydiff SYSTEM \"hwloc2-diff.dtd\">\n");
+  for (unsigned i = 0; i < d->n; i++) {
+    const xel_t *e = &d->e[i];
+    sb_add(b, "%s<%s", i ? "  " : "", e->tag);
+    for (unsigned j = 0; j < e->na; j++) { sb_add(b, " %s=\"", e->a[j].n); sb_xml_escaped(b, e->a[j].v); sb_add(b, "\""); }
+    sb_add(b, (i == 0 && d->n > 1) ? ">\n" : "/>\n");
+  }
+  if (d->n > 1) sb_add(b, "</%s>\n", d->e[0].tag);
+}
+/* load `txt` with the real importer; the model is asked about the token-level document `doc` */
+static void xload_emit(const char *txt, size_t len, const xdoc_t *doc, int mutated) {
+  sb_t l = {0}, c = {0};
+  sb_add(&l, "xload %d ", g_be_imp); sb_xdoc(&l, doc);
+  hwloc_topology_diff_t d3 = NULL; char *ref2 = NULL;
+  int lr = hwloc_topology_diff_load_xmlbuffer(txt, (int)len + 1, &d3, &ref2);
+  unsigned n = 0; char *es = entries_str(d3, &n, NULL, NULL);
+  sb_add(&c, "ret=%d ref=", lr); sb_enc(&c, ref2); sb_add(&c, " n=%u%s", n, es);
+  out2(l.p, c.p); free(l.p); free(c.p); free(es);
+  st_xload++; if (mutated) st_xload_mut++; if (lr < 0) st_xload_rej++; else if (n + 1 < doc->n) st_xload_dropped++;
+  hwloc_topology_diff_destroy(d3); free(ref2);
+}
+static const char *BADNUM[] = { "", "-1", "0", "1", "2", "3", "7", "00", "+0", " 0", "0x", "0x1f", "0X10", "017", "08", "abc", "12abc", "1e3",
+  "4294967295", "4294967296", "4294967297", "4294967298", "2147483647", "2147483648", "-2147483648", "-2147483649", "9223372036854775807",
+  "9223372036854775808", "-9223372036854775809", "18446744073709551615", "18446744073709551616", "99999999999999999999999",
+  "-18446744073709551615", "-18446744073709551616", " \t42", "-0", "- 5", "+-5", "+7", "\n2", "2 ", "0x", "0xg", "-0x10", "+017" };
+#define NBADNUM (sizeof BADNUM / sizeof *BADNUM)
+static const char *XNAMES[] = { "type", "obj_depth", "obj_index", "obj_attr_type", "obj_attr_index", "obj_attr_name", "obj_attr_oldvalue", "obj_attr_newvalue" };
+static int xattr_find(const xel_t *e, const char *n) { for (unsigned i = 0; i < e->na; i++) if (!strcmp(e->a[i].n, n)) return (int)i; return -1; }
+static void xset(xel_t *e, const char *n, const char *v) { int i = xattr_find(e, n); if (i < 0) xel_ins(e, mrng_below(e->na + 1), n, v); else { free(e->a[i].v); e->a[i].v = strdup(v); } }
+static void xmutate(xdoc_t *d) {
+  unsigned k = d->n > 1 ? 1 + mrng_below(d->n - 1) : 0;          /* a <diff> element when there is one */
+  xel_t *e = &d->e[k];
+  switch (mrng_below(14)) {
+  case 0: if (e->na) xel_del(e, mrng_below(e->na)); break;                                   /* missing attribute */
+  case 1: if (e->na) { unsigned i = mrng_below(e->na);                                       /* repeated attribute */
+            xel_ins(e, mrng_below(e->na + 1), e->a[i].n, mrng_below(2) ? e->a[i].v : BADNUM[mrng_below(NBADNUM)]); } break;
+  case 2: xset(e, "type", BADNUM[mrng_below(NBADNUM)]); break;
+  case 3: xset(e, "obj_attr_type", BADNUM[mrng_below(NBADNUM)]); break;
+  case 4: case 5: xset(e, XNAMES[(unsigned[]){1, 2, 6, 7}[mrng_below(4)]], BADNUM[mrng_below(NBADNUM)]); break;
+  case 6: { static const char *nm[] = { "foo", "obj_attr_index", "refname", "obj_attr_name", "typ", "types", "obj_attr_old_value", "x_y" };
+            xel_ins(e, mrng_below(e->na + 1), nm[mrng_below(8)], mrng_below(2) ? "v" : "0"); } break;
+  case 7: if (k) { static const char *tg[] = { "diffx", "object", "dif", "topologydiff" }; free(e->tag); e->tag = strdup(tg[mrng_below(4)]); } break;
+  case 8: if (e->na > 1) { unsigned i = mrng_below(e->na), j = mrng_below(e->na); xattr_t t = e->a[i]; e->a[i] = e->a[j]; e->a[j] = t; } break;
+  case 9: if (e->na) { unsigned i = mrng_below(e->na); free(e->a[i].v); e->a[i].v = strdup(""); } break;     /* empty value */
+  case 10: if (k) xdoc_ins(d, 1 + mrng_below(d->n), xel_copy(e)); break;                     /* repeated element */
+  case 11: if (d->n > 2) { unsigned i = 1 + mrng_below(d->n - 1), j = 1 + mrng_below(d->n - 1); xel_t t = d->e[i]; d->e[i] = d->e[j]; d->e[j] = t; } break;
+  case 12: if (k && d->n > 2) { xel_free(e); memmove(d->e + k, d->e + k + 1, (d->n - k - 1) * sizeof *d->e); d->n--; } break;
+  default: { static const char *nm[] = { "refname", "refname", "version", "type" };          /* root attributes */
+             xel_ins(&d->e[0], mrng_below(d->e[0].na + 1), nm[mrng_below(4)], mrng_below(3) ? "other ref" : ""); } break;
+  }
+}
+static void xml_tie(hwloc_topology_diff_t d, const char *ref, uint64_t mseed) {
+  char *buf = NULL; int len = 0;
+  char *es = entries_str(d, NULL, NULL, NULL);
+  sb_t l = {0}, c = {0};
+  sb_add(&l, "xexp %d ", g_be_exp); sb_enc(&l, ref); sb_add(&l, "%s", es); free(es);
+  int xr = hwloc_topology_diff_export_xmlbuffer(d, ref, &buf, &len);
+  st_xexp++;
+  xdoc_t doc = { NULL, 0 };
+  if (xr < 0 || !buf) { st_xexp_einval++; sb_add(&c, "ret=%d", xr); out2(l.p, c.p); free(l.p); free(c.p); return; }
+  if (xscan(buf, &doc) < 0 || (size_t)len != strlen(buf) + 1) { sb_add(&c, "ret=0 unscannable"); out2(l.p, c.p); free(l.p); free(c.p); xdoc_free(&doc); hwloc_free_xmlbuffer(NULL, buf); return; }
+  sb_add(&c, "ret=0 "); sb_xdoc(&c, &doc);
+  if (!g_be_exp) { sb_add(&c, " bytes=s"); sb_hex(&c, buf, strlen(buf)); }
+  out2(l.p, c.p); free(l.p); free(c.p);
+  xload_emit(buf, (size_t)len - 1, &doc, 0);
+  hwloc_free_xmlbuffer(NULL, buf);
+  mrng_s = mseed * 0x9E3779B97F4A7C15ULL + 0x1234567ULL; if (!mrng_s) mrng_s = 1;
+  for (int m = 0; m < 4; m++) {
+    xdoc_t md = xdoc_copy(&doc);
+    unsigned nm = 1 + mrng_below(2);
+    for (unsigned i = 0; i < nm; i++) xmutate(&md);
+    sb_t t = {0}; xrender(&t, &md);
+    xload_emit(t.p, t.len, &md, 1);
+    free(t.p); xdoc_free(&md);
+  }
+  xdoc_free(&doc);
+}
+static uint64_t str_hash(const char *s) { uint64_t h = 1469598103934665603ULL; for (; *s; s++) { h ^= (unsigned char)*s; h *= 1099511628211ULL; } return h; }
+/* `xdiff <ref> <mseed> <entry>*`: a hand-built list (any strings, any 64-bit values, any depth / index) through xml_tie */
+static void do_xdiff(const char *reftok, const char *seedtok, char **toks, int ntok) {
+  hwloc_topology_diff_t first = NULL, last = NULL;
+  for (int i = 0; i < ntok; i++) {
+    hwloc_topology_diff_t d = parse_entry(toks[i]);
+    if (!d || (d->generic.type != HWLOC_TOPOLOGY_DIFF_OBJ_ATTR && d->generic.type != HWLOC_TOPOLOGY_DIFF_TOO_COMPLEX)
+        || (d->generic.type == HWLOC_TOPOLOGY_DIFF_OBJ_ATTR && d->obj_attr.diff.generic.type > HWLOC_TOPOLOGY_DIFF_OBJ_ATTR_INFO)) {
+      hwloc_topology_diff_destroy(d); hwloc_topology_diff_destroy(first); return;      /* not exportable by the C code */
+    }
+    if (first) last->generic.next = d; else first = d;
+    last = d;
+  }
+  char *ref = dec(reftok);
+  st_xdiff++;
+  xml_tie(first, ref, strtoull(seedtok, NULL, 10));
+  free(ref);
+  hwloc_topology_diff_destroy(first);
+}
+
 /* ---------------------------------------------------------------- executor */
 static hwloc_obj_t obj_at(hwloc_topology_t t, int oi) { dfs_collect(t); return (oi >= 0 && (unsigned)oi < ndfs) ? dfs[oi] : NULL; }
 static struct hwloc_infos_s *infos_at(hwloc_topology_t t, int oi) { if (oi == -1) return &t->infos; hwloc_obj_t o = obj_at(t, oi); return o ? &o->infos : NULL; }
@@ -293,6 +504,8 @@ static void do_pair(int a, int b) {
   }
   oracle("no_null_string_in_diff", !nullside, "-");       /* a NULL string can be neither applied nor exported */
   if (nullside) st_f13a++;
+  /* every built list (also the ones with a TOO_COMPLEX entry: EINVAL) through the XML exporter / importer models */
+  if (!nullside) { const char *xrefs[4] = { "ref name", NULL, "a<b>&\"c'", "" }; xml_tie(d, xrefs[str_hash(es) % 4], str_hash(es)); }
   if (ret == 0 && !nullside) {
     const char *cls = (has_dup_info_names(A) || has_dup_info_names(B)) ? "F13c" : "-";
     if (strcmp(cls, "-")) st_dupnames++;
@@ -425,6 +638,7 @@ static void exec_line(char *line) {
   if (!strncmp(line, "xmlbackend ", 11)) {
     setenv("HWLOC_LIBXML_EXPORT", line[11] == '0' ? "0" : "1", 1);
     setenv("HWLOC_LIBXML_IMPORT", strlen(line) > 13 && line[13] == '0' ? "0" : "1", 1);
+    g_be_exp = line[11] == '0' ? 0 : 1; g_be_imp = strlen(line) > 13 && line[13] == '0' ? 0 : 1;
     return;
   }
   char *copy = strdup(line);
@@ -468,6 +682,8 @@ static void exec_line(char *line) {
   } else if (!strcmp(c, "pair") && nt == 3) {
     int b = atoi(toks[2]);
     if (s >= 0 && s < SCR_P && b >= 0 && b < SCR_P) do_pair(s, b);
+  } else if (!strcmp(c, "xdiff") && nt >= 3) {
+    do_xdiff(toks[1], toks[2], toks + 3, nt - 3);
   } else if (!strcmp(c, "hand") && nt >= 4) {
     if (t) do_hand(s, atoi(toks[2]), toks[3], toks + 4, nt - 4);
   } else if (!t) {
@@ -584,7 +800,7 @@ static void exec_line(char *line) {
 
 /* ---------------------------------------------------------------- generator */
 static void emit(const char *fmt, ...) {
-  static char line[16384];
+  static char line[1 << 18];
   va_list ap; va_start(ap, fmt); vsnprintf(line, sizeof line, fmt, ap); va_end(ap);
   fprintf(fops, "%s\n", line);
   fflush(fops);                 /* the op that crashes the library must be in the file */
@@ -612,6 +828,7 @@ static const char *STRS[] = { "a", "b", "c", "X", "Yy", "two words", "a<b>&\"c'"
 static const char *INAMES[] = { "K0", "K1", "K2", "Key 3", "K<4>" };
 static char encbuf[4][256];
 static const char *E(const char *s) { static int k; sb_t b = {0}; sb_enc(&b, s); k = (k + 1) % 4; snprintf(encbuf[k], 256, "%s", b.p); free(b.p); return encbuf[k]; }
+static const char *E2(const char *s) { static char big[4][900]; static int k; sb_t b = {0}; sb_enc(&b, s); k = (k + 1) % 4; snprintf(big[k], 900, "%s", b.p); free(b.p); return big[k]; }
 static const char *rstr(void) { return STRS[rng_below(sizeof STRS / sizeof *STRS)]; }
 static uint64_t rmem(void) {
   switch (rng_below(6)) { case 0: return 0; case 1: return UINT64_MAX; case 2: return 1ULL << 63; case 3: return rng_next(); default: return rng_below(100000); }
@@ -763,8 +980,41 @@ static void gen_hand(int s) {
   free(b.p);
 }
 
+static const char *XSTRS[] = { "", "a", "b", "two words", "a<b>&\"c'", "line\nbreak", "tab\there", "cr\rx", "&amp;", "&#10;", "  lead", "trail  ",
+  "x=\"y\"", "'", ">>", ";&", "]]>", "<!-- c -->", "0", "-1", "K<4>", "\n", " ", "&", "\"", "/>", "a&b<c>d\"e'f\tg\nh\ri" };
+static const char *xstr(void) {
+  static char buf[4][400]; static int k; k = (k + 1) % 4;
+  unsigned r = rng_below(100);
+  if (r < 70) return XSTRS[rng_below(sizeof XSTRS / sizeof *XSTRS)];
+  unsigned n = r < 95 ? rng_below(12) : 200 + rng_below(190);
+  for (unsigned i = 0; i < n; i++) { unsigned c = rng_below(98); buf[k][i] = c < 95 ? (char)(32 + c) : c == 95 ? '\t' : c == 96 ? '\n' : '\r'; }
+  buf[k][n] = 0; return buf[k];
+}
+static void gen_xdiff(void) {
+  sb_t b = {0}; sb_add(&b, "");
+  unsigned n = rng_chance(8) ? 0 : 1 + rng_below(rng_chance(10) ? 30 : 5);
+  static const int DEPTHS[] = { 0, 1, 2, 3, -1, -2, -3, -4, -5, -6, 2147483647, -2147483647 - 1, 12, 100 };
+  static const unsigned IDX[] = { 0, 1, 2, 7, 4294967295u, 2147483648u, 2147483647u, 65536, 10, 99 };
+  for (unsigned i = 0; i < n; i++) {
+    int depth = rng_chance(80) ? DEPTHS[rng_below(sizeof DEPTHS / sizeof *DEPTHS)] : (int)(uint32_t)rng_next();
+    unsigned idx = rng_chance(80) ? IDX[rng_below(sizeof IDX / sizeof *IDX)] : (unsigned)rng_next();
+    char e1[900], e2[900], e3[900];
+    switch (rng_below(rng_chance(12) ? 4 : 3)) {
+    case 0: sb_add(&b, " S:%d:%u:%" PRIu64 ":%" PRIu64, depth, idx, rmem(), rmem()); break;
+    case 1: snprintf(e1, sizeof e1, "%s", E2(xstr())); snprintf(e2, sizeof e2, "%s", E2(xstr())); sb_add(&b, " N:%d:%u:%s:%s", depth, idx, e1, e2); break;
+    case 2: snprintf(e1, sizeof e1, "%s", E2(xstr())); snprintf(e2, sizeof e2, "%s", E2(xstr())); snprintf(e3, sizeof e3, "%s", E2(xstr()));
+            sb_add(&b, " I:%d:%u:%s:%s:%s", depth, idx, e1, e2, e3); break;
+    default: sb_add(&b, " TC:%d:%u", depth, idx); break;
+    }
+  }
+  char rf[900]; snprintf(rf, sizeof rf, "%s", rng_chance(25) ? "-" : E2(xstr()));
+  emit("xdiff %s %" PRIu64 "%s", rf, rng_next() >> 1, b.p);
+  free(b.p);
+}
+
 static void gen_case(void) {
   int allow_dup = rng_chance(10);
+  if (rng_chance(30)) { gen_xdiff(); if (rng_chance(50)) return; }
   case_restricted = 0;
   if (rng_chance(2)) {          /* the same XML with and without its I/O objects */
     emit("synth 0 xml:24em64t-2n6c2t-pci.xml");
@@ -819,7 +1069,7 @@ int main(int argc, char **argv) {
   if (argc >= 6 && !strcmp(argv[1], "--replay")) {
     FILE *in = fopen(argv[2], "r"); fmin = fopen(argv[3], "w"); fcout = fopen(argv[4], "w"); forc = fopen(argv[5], "w");
     if (!in || !fmin || !fcout || !forc) return 2;
-    static char line[65536];
+    static char line[1 << 18];
     snprintf(g_tmpxml, sizeof g_tmpxml, "%s.diff.xml", argv[5]);
     while (fgets(line, sizeof line, in)) { if (!strncmp(line, "xmlbackend ", 11)) { exec_line(line); continue; } opno++; if (line[0] != '#') exec_line(line); }
     fclose(in);
@@ -836,9 +1086,9 @@ int main(int argc, char **argv) {
     FILE *fs = fopen(argv[6], "w");
     if (fs) {
       fprintf(fs, "pairs %lu\nret0 %lu\nret0_empty %lu\nret1 %lu\nf13a_null_side %lu\nentries_size %lu\nentries_name %lu\nentries_info %lu\nentries_toocomplex %lu\n"
-              "hand_lists %lu\nhand_failed %lu\nhand_ok %lu\npairs_with_dup_info_names %lu\nxml_roundtrips %lu\noracle_checks %lu\noracle_fail_known_class %lu\nmisc_inserted %lu\nrestricted %lu\nallow_changed %lu\ncpukind_added %lu\nmemattr_set %lu\ndistances_added %lu\nxml_topologies %lu\npairs_with_hetero_distances %lu\nxml_roundtrips_file %lu\nxml_roundtrips_long_diff %lu\ndistances_one_cell_changed %lu\n",
+              "hand_lists %lu\nhand_failed %lu\nhand_ok %lu\npairs_with_dup_info_names %lu\nxml_roundtrips %lu\noracle_checks %lu\noracle_fail_known_class %lu\nmisc_inserted %lu\nrestricted %lu\nallow_changed %lu\ncpukind_added %lu\nmemattr_set %lu\ndistances_added %lu\nxml_topologies %lu\npairs_with_hetero_distances %lu\nxml_roundtrips_file %lu\nxml_roundtrips_long_diff %lu\ndistances_one_cell_changed %lu\nxml_model_exports %lu\nxml_model_exports_einval %lu\nxml_model_loads %lu\nxml_model_loads_mutated %lu\nxml_model_loads_rejected %lu\nxml_model_loads_entry_dropped %lu\nxml_model_hand_lists %lu\n",
               st_cases, st_ret0, st_ret0_empty, st_ret1, st_f13a, st_entries_S, st_entries_N, st_entries_I, st_entries_T, st_hand, st_hand_fail, st_hand_ok,
-              st_dupnames, st_xml, st_orc, st_orc_fail_known, st_misc, st_restrict, st_allow, st_kind, st_mattr, st_dist, st_xmltopo, st_hetero, st_xml_file, st_xml_big, st_distcell);
+              st_dupnames, st_xml, st_orc, st_orc_fail_known, st_misc, st_restrict, st_allow, st_kind, st_mattr, st_dist, st_xmltopo, st_hetero, st_xml_file, st_xml_big, st_distcell, st_xexp, st_xexp_einval, st_xload, st_xload_mut, st_xload_rej, st_xload_dropped, st_xdiff);
       fclose(fs);
     }
   } else { fprintf(stderr, "usage: diff <ncases> <ops> <model-in> <c-out> <oracle> <stats> | --replay <ops> <model-in> <c-out> <oracle>\n"); return 2; }
